@@ -447,239 +447,468 @@ theorem totalWeight_pos_of_exists (f : Host → Bool) (es : List Entry)
     · have := ih ⟨e', hin, h1, h2⟩
       split <;> omega
 
-theorem chooseLoop_mem (f : Host → Bool) (q : Nat) :
-    ∀ (it : List Entry) (rw : Int) (h : Host), chooseLoop f q it rw = some h →
-      ∃ w, (h, w) ∈ it ∧ f h = true
-  | [], _, _, hc => by simp [chooseLoop] at hc
-  | (h0, w0) :: r, rw, h, hc => by
-    simp only [chooseLoop] at hc
-    by_cases hf : f h0 = true
-    · simp only [hf, if_true] at hc
-      by_cases hs : rw - ((q * w0 : Nat) : Int) ≤ 0
-      · simp only [hs, if_true, Option.some.injEq] at hc
+/-! ### selection: the repaired second pass
+
+The loop is analysed through three small pieces over an entry predicate `g` ("this entry is
+visited"): `gTotal` (weight of the visited entries), `coreIdx` (where `randomWeight` first drops
+to `<= 0`, if anywhere) and `lastIdx` (the last visited entry: the fall-back). -/
+
+/-- the entries the second pass does not pass over -/
+def visits (f : Host → Bool) (skipZero : Bool) (e : Entry) : Bool :=
+  f e.1 && !(skipZero && e.2 == 0)
+
+def gTotal (g : Entry → Bool) : List Entry → Nat
+  | [] => 0
+  | e :: r => if g e then e.2 + gTotal g r else gTotal g r
+
+def coreIdx (g : Entry → Bool) (q : Nat) : List Entry → Int → Option Nat
+  | [], _ => none
+  | e :: r, rw =>
+    if g e then
+      if rw - ((q * e.2 : Nat) : Int) ≤ 0 then some 0
+      else (coreIdx g q r (rw - ((q * e.2 : Nat) : Int))).map (· + 1)
+    else (coreIdx g q r rw).map (· + 1)
+
+def lastIdx (g : Entry → Bool) : List Entry → Option Nat
+  | [] => none
+  | e :: r =>
+    match lastIdx g r with
+    | some j => some (j + 1)
+    | none => if g e then some 0 else none
+
+theorem gTotal_visits (f : Host → Bool) (s : Bool) (es : List Entry) :
+    gTotal (visits f s) es = totalWeight f es := by
+  induction es with
+  | nil => rfl
+  | cons e r ih =>
+    obtain ⟨h, w⟩ := e
+    simp only [gTotal, totalWeight, visits, ih]
+    cases f h <;> cases s <;> by_cases hw : w = 0 <;> simp [hw]
+
+theorem gTotal_zero_of_none (g : Entry → Bool) (es : List Entry) (h : ∀ e ∈ es, g e = false) :
+    gTotal g es = 0 := by
+  induction es with
+  | nil => rfl
+  | cons e r ih =>
+    simp only [gTotal, h e (by simp)]
+    exact ih (fun e he => h e (List.mem_cons_of_mem _ he))
+
+theorem exists_of_gTotal_pos (g : Entry → Bool) (es : List Entry) (h : 0 < gTotal g es) :
+    ∃ e ∈ es, g e = true := by
+  induction es with
+  | nil => simp [gTotal] at h
+  | cons e r ih =>
+    simp only [gTotal] at h
+    by_cases hg : g e = true
+    · exact ⟨e, by simp, hg⟩
+    · simp only [hg] at h
+      obtain ⟨e', he', h1⟩ := ih h
+      exact ⟨e', List.mem_cons_of_mem _ he', h1⟩
+
+theorem coreIdx_some (g : Entry → Bool) (q : Nat) :
+    ∀ (it : List Entry) (rw : Int) (j : Nat), coreIdx g q it rw = some j →
+      ∃ e, it[j]? = some e ∧ g e = true
+  | [], _, _, hc => by simp [coreIdx] at hc
+  | e :: r, rw, j, hc => by
+    simp only [coreIdx] at hc
+    by_cases hg : g e = true
+    · simp only [hg, if_true] at hc
+      by_cases hs : rw - ((q * e.2 : Nat) : Int) ≤ 0
+      · rw [if_pos hs] at hc
+        simp only [Option.some.injEq] at hc
         subst hc
-        exact ⟨w0, by simp, hf⟩
-      · simp only [hs, if_false] at hc
-        obtain ⟨w, hw, hfh⟩ := chooseLoop_mem f q r _ h hc
-        exact ⟨w, List.mem_cons_of_mem _ hw, hfh⟩
-    · simp only [hf] at hc
-      obtain ⟨w, hw, hfh⟩ := chooseLoop_mem f q r _ h hc
-      exact ⟨w, List.mem_cons_of_mem _ hw, hfh⟩
+        exact ⟨e, rfl, hg⟩
+      · rw [if_neg hs] at hc
+        cases hx : coreIdx g q r (rw - ((q * e.2 : Nat) : Int)) with
+        | none => rw [hx] at hc; exact absurd hc (by simp)
+        | some k =>
+          rw [hx] at hc
+          simp only [Option.map_some, Option.some.injEq] at hc
+          subst hc
+          obtain ⟨e', h1, h2⟩ := coreIdx_some g q r _ k hx
+          exact ⟨e', by simpa using h1, h2⟩
+    · have hg' : g e = false := by simpa using hg
+      simp only [hg', Bool.false_eq_true, if_false] at hc
+      cases hx : coreIdx g q r rw with
+      | none => rw [hx] at hc; exact absurd hc (by simp)
+      | some k =>
+        rw [hx] at hc
+        simp only [Option.map_some, Option.some.injEq] at hc
+        subst hc
+        obtain ⟨e', h1, h2⟩ := coreIdx_some g q r _ k hx
+        exact ⟨e', by simpa using h1, h2⟩
 
-theorem chooseLoop_none_of_gt (f : Host → Bool) (q : Nat) :
-    ∀ (it : List Entry) (rw : Int), ((q * totalWeight f it : Nat) : Int) < rw →
-      chooseLoop f q it rw = none
-  | [], _, _ => rfl
-  | (h0, w0) :: r, rw, hgt => by
-    simp only [chooseLoop, totalWeight] at hgt ⊢
-    by_cases hf : f h0 = true
-    · simp only [hf, if_true] at hgt ⊢
-      rw [Nat.mul_add] at hgt
-      have hs : ¬ (rw - ((q * w0 : Nat) : Int) ≤ 0) := by omega
-      simp only [hs, if_false]
-      exact chooseLoop_none_of_gt f q r _ (by omega)
-    · simp only [hf] at hgt ⊢
-      exact chooseLoop_none_of_gt f q r rw hgt
-
-theorem chooseLoop_none_of_no_eligible (f : Host → Bool) (q : Nat) :
-    ∀ (it : List Entry) (rw : Int), (∀ e ∈ it, f e.1 = false) → chooseLoop f q it rw = none
-  | [], _, _ => rfl
-  | (h0, w0) :: r, rw, hn => by
-    have h0f : f h0 = false := hn (h0, w0) (by simp)
-    simp only [chooseLoop, h0f]
-    exact chooseLoop_none_of_no_eligible f q r rw (fun e he => hn e (List.mem_cons_of_mem _ he))
-
-theorem chooseLoop_some_of_le (f : Host → Bool) (q : Nat) :
-    ∀ (it : List Entry) (rw : Int), rw ≤ ((q * totalWeight f it : Nat) : Int) →
-      (∃ e ∈ it, f e.1 = true) → chooseLoop f q it rw ≠ none
+theorem coreIdx_ne_none_of_le (g : Entry → Bool) (q : Nat) :
+    ∀ (it : List Entry) (rw : Int), rw ≤ ((q * gTotal g it : Nat) : Int) →
+      (∃ e ∈ it, g e = true) → coreIdx g q it rw ≠ none
   | [], _, _, he => by simp at he
-  | (h0, w0) :: r, rw, hle, he => by
-    simp only [chooseLoop, totalWeight] at hle ⊢
-    by_cases hf : f h0 = true
-    · simp only [hf, if_true] at hle ⊢
+  | e :: r, rw, hle, he => by
+    simp only [coreIdx, gTotal] at hle ⊢
+    by_cases hg : g e = true
+    · simp only [hg, if_true] at hle ⊢
       rw [Nat.mul_add] at hle
-      by_cases hs : rw - ((q * w0 : Nat) : Int) ≤ 0
+      by_cases hs : rw - ((q * e.2 : Nat) : Int) ≤ 0
       · rw [if_pos hs]; simp
-      · simp only [hs, if_false]
-        have hle' : rw - ((q * w0 : Nat) : Int) ≤ ((q * totalWeight f r : Nat) : Int) := by omega
-        have hpos : 0 < totalWeight f r := by
+      · rw [if_neg hs]
+        have hle' : rw - ((q * e.2 : Nat) : Int) ≤ ((q * gTotal g r : Nat) : Int) := by omega
+        have hpos : 0 < gTotal g r := by
           apply Nat.pos_of_ne_zero
           intro h0
           rw [h0] at hle'
           simp only [Nat.mul_zero] at hle'
           omega
-        obtain ⟨e, hin, h1, _⟩ := exists_of_totalWeight_pos f r hpos
-        exact chooseLoop_some_of_le f q r _ hle' ⟨e, hin, h1⟩
-    · simp only [hf] at hle ⊢
-      obtain ⟨e, hin, h1⟩ := he
+        have := coreIdx_ne_none_of_le g q r _ hle' (exists_of_gTotal_pos g r hpos)
+        cases hx : coreIdx g q r (rw - ((q * e.2 : Nat) : Int)) with
+        | none => exact absurd hx this
+        | some k => simp
+    · have hg' : g e = false := by simpa using hg
+      simp only [hg', Bool.false_eq_true, if_false] at hle ⊢
+      obtain ⟨e', hin, h1⟩ := he
       rcases List.mem_cons.1 hin with heq | hin'
-      · subst heq; exact absurd h1 hf
-      · exact chooseLoop_some_of_le f q r rw hle ⟨e, hin', h1⟩
+      · subst heq; rw [hg'] at h1; exact absurd h1 (by simp)
+      · have := coreIdx_ne_none_of_le g q r rw hle ⟨e', hin', h1⟩
+        cases hx : coreIdx g q r rw with
+        | none => exact absurd hx this
+        | some k => simp
 
-theorem chooseLoop_pos (f : Host → Bool) (q : Nat) :
-    ∀ (it : List Entry) (rw : Int) (h : Host), 0 < rw → chooseLoop f q it rw = some h →
-      ∃ w, (h, w) ∈ it ∧ f h = true ∧ 0 < w
-  | [], _, _, _, hc => by simp [chooseLoop] at hc
-  | (h0, w0) :: r, rw, h, hpos, hc => by
-    simp only [chooseLoop] at hc
-    by_cases hf : f h0 = true
-    · simp only [hf, if_true] at hc
-      by_cases hs : rw - ((q * w0 : Nat) : Int) ≤ 0
-      · simp only [hs, if_true, Option.some.injEq] at hc
+theorem coreIdx_none_of_no_eligible (g : Entry → Bool) (q : Nat) :
+    ∀ (it : List Entry) (rw : Int), (∀ e ∈ it, g e = false) → coreIdx g q it rw = none
+  | [], _, _ => rfl
+  | e :: r, rw, hn => by
+    simp only [coreIdx, hn e (by simp), Bool.false_eq_true, if_false]
+    rw [coreIdx_none_of_no_eligible g q r rw (fun e he => hn e (List.mem_cons_of_mem _ he))]
+    rfl
+
+theorem lastIdx_some (g : Entry → Bool) :
+    ∀ (it : List Entry) (j : Nat), lastIdx g it = some j → ∃ e, it[j]? = some e ∧ g e = true
+  | [], _, hc => by simp [lastIdx] at hc
+  | e :: r, j, hc => by
+    simp only [lastIdx] at hc
+    cases hx : lastIdx g r with
+    | some k =>
+      simp only [hx, Option.some.injEq] at hc
+      subst hc
+      obtain ⟨e', h1, h2⟩ := lastIdx_some g r k hx
+      exact ⟨e', by simpa using h1, h2⟩
+    | none =>
+      simp only [hx] at hc
+      by_cases hg : g e = true
+      · simp only [hg, if_true, Option.some.injEq] at hc
         subst hc
-        refine ⟨w0, by simp, hf, ?_⟩
-        apply Nat.pos_of_ne_zero
-        intro hz
-        rw [hz] at hs
-        simp only [Nat.mul_zero] at hs
-        omega
-      · simp only [hs, if_false] at hc
-        obtain ⟨w, hw, hfh, hwp⟩ := chooseLoop_pos f q r _ h (by omega) hc
-        exact ⟨w, List.mem_cons_of_mem _ hw, hfh, hwp⟩
-    · simp only [hf] at hc
-      obtain ⟨w, hw, hfh, hwp⟩ := chooseLoop_pos f q r _ h hpos hc
-      exact ⟨w, List.mem_cons_of_mem _ hw, hfh, hwp⟩
+        exact ⟨e, rfl, hg⟩
+      · simp [hg] at hc
+
+theorem lastIdx_none_iff (g : Entry → Bool) (it : List Entry) :
+    lastIdx g it = none ↔ ∀ e ∈ it, g e = false := by
+  induction it with
+  | nil => simp [lastIdx]
+  | cons e r ih =>
+    simp only [lastIdx]
+    cases hx : lastIdx g r with
+    | some k =>
+      simp only [reduceCtorEq, false_iff]
+      intro hall
+      have := ih.2 (fun e he => hall e (List.mem_cons_of_mem _ he))
+      rw [hx] at this; exact absurd this (by simp)
+    | none =>
+      have hr := ih.1 hx
+      by_cases hg : g e = true
+      · simp only [hg, if_true, reduceCtorEq, false_iff]
+        intro hall
+        have := hall e (by simp)
+        rw [hg] at this; exact absurd this (by simp)
+      · have hg' : g e = false := by simpa using hg
+        simp only [hg', Bool.false_eq_true, if_false, true_iff]
+        intro e' he'
+        rcases List.mem_cons.1 he' with heq | hin
+        · subst heq; exact hg'
+        · exact hr e' hin
+
+/-- the position-returning twin, decomposed -/
+theorem chooseLoopIdx_decomp (f : Host → Bool) (q : Nat) (s : Bool) :
+    ∀ (it : List Entry) (rw : Int) (i : Nat) (last : Option Nat),
+      chooseLoopIdx f q s it rw i last =
+        match coreIdx (visits f s) q it rw with
+        | some j => some (i + j)
+        | none => match lastIdx (visits f s) it with
+          | some j => some (i + j)
+          | none => last
+  | [], _, _, _ => rfl
+  | (h, w) :: r, rw, i, last => by
+    have key : (!f h) = false ∧ (s && w == 0) = false ↔ visits f s (h, w) = true := by
+      simp only [visits]
+      cases f h <;> cases s <;> cases (w == 0) <;> simp
+    by_cases hg : visits f s (h, w) = true
+    · obtain ⟨h1, h2⟩ := key.2 hg
+      simp only [chooseLoopIdx, coreIdx, lastIdx, h1, h2, hg, Bool.false_eq_true, if_false, if_true]
+      by_cases hs : rw - ((q * w : Nat) : Int) ≤ 0
+      · rw [if_pos hs, if_pos hs]; simp
+      · rw [if_neg hs, if_neg hs, chooseLoopIdx_decomp f q s r _ (i + 1) (some i)]
+        cases coreIdx (visits f s) q r (rw - ((q * w : Nat) : Int)) with
+        | some j => simp only [Option.map_some]; congr 1; omega
+        | none =>
+          simp only [Option.map_none]
+          cases lastIdx (visits f s) r with
+          | some j => simp only; congr 1; omega
+          | none => simp
+    · have hg' : visits f s (h, w) = false := by simpa using hg
+      have hskip : chooseLoopIdx f q s ((h, w) :: r) rw i last = chooseLoopIdx f q s r rw (i + 1) last := by
+        simp only [chooseLoopIdx]
+        simp only [visits] at hg'
+        cases hf : f h
+        · simp
+        · rw [hf] at hg'
+          have : (s && w == 0) = true := by simpa using hg'
+          simp [this]
+      rw [hskip, chooseLoopIdx_decomp f q s r rw (i + 1) last]
+      simp only [coreIdx, lastIdx, hg', Bool.false_eq_true, if_false]
+      cases coreIdx (visits f s) q r rw with
+      | some j => simp only [Option.map_some]; congr 1; omega
+      | none =>
+        simp only [Option.map_none]
+        cases lastIdx (visits f s) r with
+        | some j => simp only; congr 1; omega
+        | none => simp
+
+/-- the as-written loop, decomposed the same way -/
+theorem chooseLoop_decomp (f : Host → Bool) (q : Nat) (s : Bool) :
+    ∀ (it : List Entry) (rw : Int) (last : Option Host),
+      chooseLoop f q s it rw last =
+        match coreIdx (visits f s) q it rw with
+        | some j => it[j]?.map Prod.fst
+        | none => match lastIdx (visits f s) it with
+          | some j => it[j]?.map Prod.fst
+          | none => last
+  | [], _, _ => rfl
+  | (h, w) :: r, rw, last => by
+    have key : (!f h) = false ∧ (s && w == 0) = false ↔ visits f s (h, w) = true := by
+      simp only [visits]
+      cases f h <;> cases s <;> cases (w == 0) <;> simp
+    by_cases hg : visits f s (h, w) = true
+    · obtain ⟨h1, h2⟩ := key.2 hg
+      simp only [chooseLoop, coreIdx, lastIdx, h1, h2, hg, Bool.false_eq_true, if_false, if_true]
+      by_cases hs : rw - ((q * w : Nat) : Int) ≤ 0
+      · rw [if_pos hs, if_pos hs]; simp
+      · rw [if_neg hs, if_neg hs, chooseLoop_decomp f q s r _ (some h)]
+        cases coreIdx (visits f s) q r (rw - ((q * w : Nat) : Int)) with
+        | some j => simp
+        | none =>
+          simp only [Option.map_none]
+          cases lastIdx (visits f s) r with
+          | some j => simp
+          | none => simp
+    · have hg' : visits f s (h, w) = false := by simpa using hg
+      have hskip : chooseLoop f q s ((h, w) :: r) rw last = chooseLoop f q s r rw last := by
+        simp only [chooseLoop]
+        simp only [visits] at hg'
+        cases hf : f h
+        · simp
+        · rw [hf] at hg'
+          have : (s && w == 0) = true := by simpa using hg'
+          simp [this]
+      rw [hskip, chooseLoop_decomp f q s r rw last]
+      simp only [coreIdx, lastIdx, hg', Bool.false_eq_true, if_false]
+      cases coreIdx (visits f s) q r rw with
+      | some j => simp
+      | none =>
+        simp only [Option.map_none]
+        cases lastIdx (visits f s) r with
+        | some j => simp
+        | none => simp
 
 /-- the loop and its position-returning twin agree -/
-theorem chooseLoop_eq_idx (f : Host → Bool) (q : Nat) :
-    ∀ (it : List Entry) (rw : Int),
-      chooseLoop f q it rw = (chooseLoopIdx f q it rw).bind (fun j => it[j]?.map Prod.fst)
-  | [], _ => rfl
-  | (h0, w0) :: r, rw => by
-    simp only [chooseLoop, chooseLoopIdx]
-    by_cases hf : f h0 = true
-    · simp only [hf, if_true]
-      by_cases hs : rw - ((q * w0 : Nat) : Int) ≤ 0
-      · rw [if_pos hs, if_pos hs]; simp
-      · simp only [hs, if_false]
-        rw [chooseLoop_eq_idx f q r]
-        cases chooseLoopIdx f q r (rw - ((q * w0 : Nat) : Int)) <;> simp
-    · have hf' : f h0 = false := by simpa using hf
-      simp only [hf', Bool.false_eq_true, if_false]
-      rw [chooseLoop_eq_idx f q r]
-      cases chooseLoopIdx f q r rw <;> simp
+theorem chooseLoop_eq_idx (f : Host → Bool) (q : Nat) (s : Bool) (it : List Entry) (rw : Int) :
+    chooseLoop f q s it rw none = (chooseLoopIdx f q s it rw 0 none).bind (fun j => it[j]?.map Prod.fst) := by
+  rw [chooseLoop_decomp, chooseLoopIdx_decomp]
+  cases coreIdx (visits f s) q it rw with
+  | some j => simp
+  | none =>
+    cases lastIdx (visits f s) it with
+    | some j => simp
+    | none => simp
 
-/-- where the loop stops -/
-theorem chooseLoopIdx_at (f : Host → Bool) (q : Nat) (h : Host) (w : Nat) (post : List Entry) :
+/-- what the loop returns is a visited entry; nothing is returned iff nothing is visited -/
+theorem chooseLoop_some (f : Host → Bool) (q : Nat) (s : Bool) (it : List Entry) (rw : Int) (h : Host)
+    (hc : chooseLoop f q s it rw none = some h) : ∃ w, (h, w) ∈ it ∧ visits f s (h, w) = true := by
+  rw [chooseLoop_decomp] at hc
+  have fin : ∀ (j : Nat) (e : Entry), it[j]? = some e → visits f s e = true → it[j]?.map Prod.fst = some h →
+      ∃ w, (h, w) ∈ it ∧ visits f s (h, w) = true := by
+    intro j e h1 h2 h3
+    rw [h1] at h3
+    simp only [Option.map_some, Option.some.injEq] at h3
+    obtain ⟨h', w⟩ := e
+    simp only at h3; subst h3
+    exact ⟨w, List.mem_of_getElem? h1, h2⟩
+  cases hx : coreIdx (visits f s) q it rw with
+  | some j =>
+    simp only [hx] at hc
+    obtain ⟨e, h1, h2⟩ := coreIdx_some _ q it rw j hx
+    exact fin j e h1 h2 hc
+  | none =>
+    simp only [hx] at hc
+    cases hy : lastIdx (visits f s) it with
+    | some j =>
+      simp only [hy] at hc
+      obtain ⟨e, h1, h2⟩ := lastIdx_some _ it j hy
+      exact fin j e h1 h2 hc
+    | none => simp only [hy] at hc; exact absurd hc (by simp)
+
+theorem chooseLoop_none_iff (f : Host → Bool) (q : Nat) (s : Bool) (it : List Entry) (rw : Int) :
+    chooseLoop f q s it rw none = none ↔ ∀ e ∈ it, visits f s e = false := by
+  rw [chooseLoop_decomp]
+  constructor
+  · intro hc
+    cases hx : coreIdx (visits f s) q it rw with
+    | some j =>
+      obtain ⟨e, h1, _⟩ := coreIdx_some _ q it rw j hx
+      simp only [hx, h1] at hc
+      exact absurd hc (by simp)
+    | none =>
+      simp only [hx] at hc
+      cases hy : lastIdx (visits f s) it with
+      | some j =>
+        obtain ⟨e, h1, _⟩ := lastIdx_some _ it j hy
+        simp only [hy, h1] at hc
+        exact absurd hc (by simp)
+      | none => exact (lastIdx_none_iff _ it).1 hy
+  · intro hall
+    rw [coreIdx_none_of_no_eligible _ q it rw hall, (lastIdx_none_iff _ it).2 hall]
+
+/-- where `randomWeight` first drops to `<= 0` -/
+theorem coreIdx_at (g : Entry → Bool) (q : Nat) (e : Entry) (post : List Entry) :
     ∀ (pre : List Entry) (rw : Int),
-      chooseLoopIdx f q (pre ++ (h, w) :: post) rw = some pre.length ↔
-        (f h = true ∧ rw ≤ ((q * (totalWeight f pre + w) : Nat) : Int) ∧
-          (((q * totalWeight f pre : Nat) : Int) < rw ∨ ∀ e ∈ pre, f e.1 = false))
+      coreIdx g q (pre ++ e :: post) rw = some pre.length ↔
+        (g e = true ∧ rw ≤ ((q * (gTotal g pre + e.2) : Nat) : Int) ∧
+          (((q * gTotal g pre : Nat) : Int) < rw ∨ ∀ x ∈ pre, g x = false))
   | [], rw => by
-    simp only [List.nil_append, chooseLoopIdx, List.length_nil, totalWeight, Nat.zero_add,
-      Nat.mul_zero]
-    by_cases hf : f h = true
-    · simp only [hf, if_true, true_and]
-      by_cases hs : rw - ((q * w : Nat) : Int) ≤ 0
-      · simp only [hs, if_true, true_iff]
+    simp only [List.nil_append, coreIdx, List.length_nil, gTotal, Nat.zero_add, Nat.mul_zero]
+    by_cases hg : g e = true
+    · simp only [hg, if_true, true_and]
+      by_cases hs : rw - ((q * e.2 : Nat) : Int) ≤ 0
+      · rw [if_pos hs]
+        simp only [true_iff]
         exact ⟨by omega, Or.inr (by simp)⟩
-      · simp only [hs, if_false]
+      · rw [if_neg hs]
         constructor
         · intro hc
-          cases hx : chooseLoopIdx f q post (rw - ((q * w : Nat) : Int)) with
+          cases hx : coreIdx g q post (rw - ((q * e.2 : Nat) : Int)) with
           | none => simp at hc
           | some j => simp at hc
         · intro hc; omega
-    · simp only [hf]
-      constructor
-      · intro hc
-        cases hx : chooseLoopIdx f q post rw with
-        | none => simp [hx] at hc
-        | some j => simp [hx] at hc
-      · intro hc; exact absurd hc.1 (by simp)
-  | (h0, w0) :: pre, rw => by
-    simp only [List.cons_append, chooseLoopIdx, List.length_cons, totalWeight]
-    by_cases hf0 : f h0 = true
-    · simp only [hf0, if_true]
-      by_cases hs : rw - ((q * w0 : Nat) : Int) ≤ 0
-      · simp only [hs, if_true]
+    · have hg' : g e = false := by simpa using hg
+      simp only [hg', Bool.false_eq_true, if_false, false_and, iff_false]
+      intro hc
+      cases hx : coreIdx g q post rw with
+      | none => simp [hx] at hc
+      | some j => simp [hx] at hc
+  | e0 :: pre, rw => by
+    simp only [List.cons_append, coreIdx, List.length_cons, gTotal]
+    have hmap : ∀ o : Option Nat, (o.map (· + 1) = some (pre.length + 1)) ↔ o = some pre.length := by
+      intro o; cases o <;> simp
+    by_cases hg0 : g e0 = true
+    · simp only [hg0, if_true]
+      by_cases hs : rw - ((q * e0.2 : Nat) : Int) ≤ 0
+      · rw [if_pos hs]
         constructor
         · intro hc; simp at hc
         · rintro ⟨_, _, hlt | hall⟩
           · rw [Nat.mul_add] at hlt; omega
-          · have := hall (h0, w0) (by simp)
-            simp only at this
-            rw [hf0] at this; exact absurd this (by simp)
-      · simp only [hs, if_false]
-        have ih := chooseLoopIdx_at f q h w post pre (rw - ((q * w0 : Nat) : Int))
-        have hmap : ∀ o : Option Nat, (o.map (· + 1) = some (pre.length + 1)) ↔ o = some pre.length := by
-          intro o; cases o <;> simp
-        rw [hmap, ih]
-        have e1 : q * (w0 + totalWeight f pre + w) = q * w0 + q * (totalWeight f pre + w) := by
+          · have := hall e0 (by simp)
+            rw [hg0] at this; exact absurd this (by simp)
+      · rw [if_neg hs, hmap, coreIdx_at g q e post pre (rw - ((q * e0.2 : Nat) : Int))]
+        have e1 : q * (e0.2 + gTotal g pre + e.2) = q * e0.2 + q * (gTotal g pre + e.2) := by
           rw [Nat.add_assoc, Nat.mul_add]
-        have e2 : q * (w0 + totalWeight f pre) = q * w0 + q * totalWeight f pre := Nat.mul_add _ _ _
+        have e2 : q * (e0.2 + gTotal g pre) = q * e0.2 + q * gTotal g pre := Nat.mul_add _ _ _
         rw [e1, e2]
         constructor
         · rintro ⟨h1, h2, h3⟩
           refine ⟨h1, by omega, Or.inl ?_⟩
           rcases h3 with h3 | h3
           · omega
-          · rw [totalWeight_zero_of_none f pre h3]; simp only [Nat.mul_zero]; omega
+          · rw [gTotal_zero_of_none g pre h3]; simp only [Nat.mul_zero]; omega
         · rintro ⟨h1, h2, h3⟩
           refine ⟨h1, by omega, Or.inl ?_⟩
           rcases h3 with h3 | h3
           · omega
-          · have := h3 (h0, w0) (by simp)
-            simp only at this
-            rw [hf0] at this; exact absurd this (by simp)
-    · have hf0' : f h0 = false := by simpa using hf0
-      simp only [hf0', Bool.false_eq_true, if_false]
-      have ih := chooseLoopIdx_at f q h w post pre rw
-      have hmap : ∀ o : Option Nat, (o.map (· + 1) = some (pre.length + 1)) ↔ o = some pre.length := by
-        intro o; cases o <;> simp
-      rw [hmap, ih]
+          · have := h3 e0 (by simp)
+            rw [hg0] at this; exact absurd this (by simp)
+    · have hg0' : g e0 = false := by simpa using hg0
+      simp only [hg0', Bool.false_eq_true, if_false]
+      rw [hmap, coreIdx_at g q e post pre rw]
       constructor
       · rintro ⟨h1, h2, h3⟩
         refine ⟨h1, h2, ?_⟩
         rcases h3 with h3 | h3
         · exact Or.inl h3
         · refine Or.inr ?_
-          intro e he
-          rcases List.mem_cons.1 he with heq | hin
-          · subst heq; exact hf0'
-          · exact h3 e hin
+          intro x hx
+          rcases List.mem_cons.1 hx with heq | hin
+          · subst heq; exact hg0'
+          · exact h3 x hin
       · rintro ⟨h1, h2, h3⟩
         refine ⟨h1, h2, ?_⟩
         rcases h3 with h3 | h3
         · exact Or.inl h3
-        · exact Or.inr (fun e he => h3 e (List.mem_cons_of_mem _ he))
+        · exact Or.inr (fun x hx => h3 x (List.mem_cons_of_mem _ hx))
 
 /-! ### selection: one call of `filterAndChooseHost`, then `chooseHost` -/
 
+/-- with exact arithmetic and a draw below 1 the fall-back is never needed: the twin stops where
+`randomWeight` first drops to `<= 0` -/
+theorem filterAndChooseIdx_eq_core (f : Host → Bool) (es : List Entry) (d : Draw) (hv : d.Valid es) :
+    filterAndChooseIdx f d =
+      coreIdx (visits f (decide (0 < totalWeight f es))) d.q d.it2 ((d.p * totalWeight f es : Nat) : Int) := by
+  obtain ⟨h1, h2, hpq⟩ := hv
+  simp only [filterAndChooseIdx, chooseLoopIdx_decomp, totalWeight_perm f h1, Nat.zero_add]
+  cases hx : coreIdx (visits f (decide (0 < totalWeight f es))) d.q d.it2 ((d.p * totalWeight f es : Nat) : Int) with
+  | some j => rfl
+  | none =>
+    cases hy : lastIdx (visits f (decide (0 < totalWeight f es))) d.it2 with
+    | none => rfl
+    | some j =>
+      exfalso
+      obtain ⟨e, he1, he2⟩ := lastIdx_some _ d.it2 j hy
+      have hle : ((d.p * totalWeight f es : Nat) : Int) ≤
+          ((d.q * gTotal (visits f (decide (0 < totalWeight f es))) d.it2 : Nat) : Int) := by
+        rw [gTotal_visits, totalWeight_perm f h2]
+        have := Nat.mul_le_mul_right (totalWeight f es) (Nat.le_of_lt hpq)
+        omega
+      exact coreIdx_ne_none_of_le _ d.q d.it2 _ hle ⟨e, List.mem_of_getElem? he1, he2⟩ hx
+
 theorem filter_none_iff (f : Host → Bool) (es : List Entry) (d : Draw) (hv : d.Valid es) :
     filterAndChooseHost f d = none ↔ ∀ e ∈ es, f e.1 = false := by
-  obtain ⟨h1, h2, hpq⟩ := hv
-  simp only [filterAndChooseHost]
-  rw [totalWeight_perm f h1, ← totalWeight_perm f h2]
+  obtain ⟨h1, h2, _⟩ := hv
+  simp only [filterAndChooseHost, chooseLoop_none_iff, totalWeight_perm f h1]
   constructor
   · intro hn e he
     cases hfe : f e.1 with
     | false => rfl
     | true =>
       exfalso
-      have hle : ((d.p * totalWeight f d.it2 : Nat) : Int) ≤ ((d.q * totalWeight f d.it2 : Nat) : Int) := by
-        have := Nat.mul_le_mul_right (totalWeight f d.it2) (Nat.le_of_lt hpq)
+      by_cases hT : 0 < totalWeight f es
+      · obtain ⟨e', he', hf', hw'⟩ := exists_of_totalWeight_pos f es hT
+        have := hn e' (h2.mem_iff.2 he')
+        simp only [visits, hf', Bool.true_and, Bool.not_eq_false', Bool.and_eq_true, decide_eq_true_eq,
+          beq_iff_eq] at this
         omega
-      exact chooseLoop_some_of_le f d.q d.it2 _ hle ⟨e, h2.mem_iff.2 he, hfe⟩ hn
-  · intro hall
-    exact chooseLoop_none_of_no_eligible f d.q d.it2 _ (fun e he => hall e (h2.mem_iff.1 he))
+      · have := hn e (h2.mem_iff.2 he)
+        simp [visits, hfe, hT] at this
+  · intro hall e he
+    simp [visits, hall e (h2.mem_iff.1 he)]
 
+/-- a returned host was visited: it passes the filter, and carries positive weight whenever the
+eligible total is positive -/
 theorem filter_some_mem (f : Host → Bool) (es : List Entry) (d : Draw) (hv : d.Valid es) (h : Host)
-    (hc : filterAndChooseHost f d = some h) : ∃ w, (h, w) ∈ es ∧ f h = true := by
-  obtain ⟨w, hw, hf⟩ := chooseLoop_mem f d.q d.it2 _ h hc
-  exact ⟨w, hv.2.1.mem_iff.1 hw, hf⟩
-
-theorem filter_some_pos (f : Host → Bool) (es : List Entry) (d : Draw) (hv : d.Valid es) (h : Host)
-    (hp : 0 < d.p) (hex : ∃ e ∈ es, f e.1 = true ∧ 0 < e.2)
-    (hc : filterAndChooseHost f d = some h) : ∃ w, (h, w) ∈ es ∧ f h = true ∧ 0 < w := by
-  have hT : 0 < totalWeight f d.it1 := by
-    rw [totalWeight_perm f hv.1]
-    exact totalWeight_pos_of_exists f es hex
-  have hrw : (0 : Int) < ((d.p * totalWeight f d.it1 : Nat) : Int) := by
-    have := Nat.mul_pos hp hT
+    (hc : filterAndChooseHost f d = some h) :
+    ∃ w, (h, w) ∈ es ∧ f h = true ∧ (0 < totalWeight f es → 0 < w) := by
+  simp only [filterAndChooseHost, totalWeight_perm f hv.1] at hc
+  obtain ⟨w, hw, hvis⟩ := chooseLoop_some f d.q _ d.it2 _ h hc
+  refine ⟨w, hv.2.1.mem_iff.1 hw, ?_, ?_⟩
+  · simp only [visits, Bool.and_eq_true] at hvis; exact hvis.1
+  · intro hT
+    simp only [visits, hT, decide_true, Bool.true_and, Bool.and_eq_true, Bool.not_eq_eq_eq_not,
+      Bool.not_true, beq_eq_false_iff_ne, ne_eq] at hvis
     omega
-  obtain ⟨w, hw, hf, hwp⟩ := chooseLoop_pos f d.q d.it2 _ h hrw hc
-  exact ⟨w, hv.2.1.mem_iff.1 hw, hf, hwp⟩
 
 theorem any_hasScheme (s : Bytes) (es : List Entry) :
     es.any (Spec.hasScheme s) = true ↔ ∃ e ∈ es, (fun h : Host => h.scheme == s) e.1 = true := by
